@@ -233,6 +233,173 @@ Lemma to_flux_round : forall (s : spectrum RF) (g h : funit),
   length (s_value RF s) = length (s_wave RF s) -> to s [fname h; fname g] = Ok s.
 Proof. intros. rewrite (to_flux_compose s g h g) by auto. apply to_flux_id; auto. Qed.
 
+(* ------------------------------------------------------------------ Spectrum.sample in another wave unit *)
+Definition Rleb (x y : R) : bool := if Rle_dec x y then true else false.
+Lemma Rleb_scale : forall f x y, 0 < f -> Rleb (x * f) (y * f) = Rleb x y.
+Proof.
+  intros f x y Hf. unfold Rleb. destruct (Rle_dec (x * f) (y * f)) as [A|A], (Rle_dec x y) as [B|B]; auto.
+  - exfalso. apply B. apply (Rmult_le_reg_r f); auto.
+  - exfalso. apply A. apply Rmult_le_compat_r; lra.
+Qed.
+(* consecutive samples are distinct (the wave setter demands strictly increasing wavelengths) *)
+Fixpoint distinct_adj (ws : list R) : Prop :=
+  match ws with
+  | w0 :: ((w1 :: _) as t) => w0 <> w1 /\ distinct_adj t
+  | _ => True
+  end.
+Notation interp := (interp_lin RF Rleb).
+
+Lemma interp_scale_density : forall f, 0 < f -> forall ws vs x, distinct_adj ws ->
+  interp (scale f ws) (unscale f vs) (x * f) = option_map (fun y => y / f) (interp ws vs x).
+Proof.
+  intros f Hf. induction ws as [|w0 ws IH]; intros vs x Hd; [reflexivity|].
+  destruct vs as [|v0 vs]; [reflexivity|].
+  destruct ws as [|w1 ws]; [reflexivity|].
+  destruct vs as [|v1 vs]; [reflexivity|].
+  destruct Hd as [Hne Hd]. specialize (IH (v1 :: vs) x Hd).
+  change (interp (scale f (w0 :: w1 :: ws)) (unscale f (v0 :: v1 :: vs)) (x * f))
+    with (if Rleb (w0 * f) (x * f) && Rleb (x * f) (w1 * f)
+          then Some (v0 / f + (v1 / f - v0 / f) / (w1 * f - w0 * f) * (x * f - w0 * f))
+          else interp (scale f (w1 :: ws)) (unscale f (v1 :: vs)) (x * f)).
+  change (interp (w0 :: w1 :: ws) (v0 :: v1 :: vs) x)
+    with (if Rleb w0 x && Rleb x w1 then Some (v0 + (v1 - v0) / (w1 - w0) * (x - w0))
+          else interp (w1 :: ws) (v1 :: vs) x).
+  rewrite !Rleb_scale by auto. destruct (Rleb w0 x && Rleb x w1); [|exact IH].
+  assert (w1 - w0 <> 0) by (intro E; apply Hne; lra). assert (f <> 0) by lra.
+  assert (w1 * f - w0 * f <> 0) by (replace (w1 * f - w0 * f) with ((w1 - w0) * f) by ring;
+                                     apply Rmult_integral_contrapositive_currified; auto).
+  cbn [option_map F RF] in *. f_equal. field; auto.
+Qed.
+Lemma interp_scale_unitless : forall f, 0 < f -> forall ws vs x, distinct_adj ws ->
+  interp (scale f ws) vs (x * f) = interp ws vs x.
+Proof.
+  intros f Hf. induction ws as [|w0 ws IH]; intros vs x Hd; [reflexivity|].
+  destruct vs as [|v0 vs]; [reflexivity|].
+  destruct ws as [|w1 ws]; [reflexivity|].
+  destruct vs as [|v1 vs]; [reflexivity|].
+  destruct Hd as [Hne Hd]. specialize (IH (v1 :: vs) x Hd).
+  change (interp (scale f (w0 :: w1 :: ws)) (v0 :: v1 :: vs) (x * f))
+    with (if Rleb (w0 * f) (x * f) && Rleb (x * f) (w1 * f)
+          then Some (v0 + (v1 - v0) / (w1 * f - w0 * f) * (x * f - w0 * f))
+          else interp (scale f (w1 :: ws)) (v1 :: vs) (x * f)).
+  change (interp (w0 :: w1 :: ws) (v0 :: v1 :: vs) x)
+    with (if Rleb w0 x && Rleb x w1 then Some (v0 + (v1 - v0) / (w1 - w0) * (x - w0))
+          else interp (w1 :: ws) (v1 :: vs) x).
+  rewrite !Rleb_scale by auto. destruct (Rleb w0 x && Rleb x w1); [|exact IH].
+  assert (w1 - w0 <> 0) by (intro E; apply Hne; lra). assert (f <> 0) by lra.
+  assert (w1 * f - w0 * f <> 0) by (replace (w1 * f - w0 * f) with ((w1 - w0) * f) by ring;
+                                     apply Rmult_integral_contrapositive_currified; auto).
+  cbn [option_map F RF] in *. f_equal. field; auto.
+Qed.
+
+(* sampling in the wave unit b at the points x*f (f the table factor a->b) returns, for a density,
+   the samples taken in the spectrum's own unit divided by f; for a unitless spectrum the same samples *)
+Lemma sample_unit_independent : forall (s : spectrum RF) (b : wunit) (pts : list R),
+  distinct_adj (s_wave RF s) ->
+  sample RF H C Rleb s (scale (wf RF (s_wu RF s) b) pts) (wname b)
+  = Ok (map (fun x => match s_vu RF s with
+                      | Some _ => sample_at RF Rleb (s_wave RF s) (s_value RF s) x / wf RF (s_wu RF s) b
+                      | None => sample_at RF Rleb (s_wave RF s) (s_value RF s) x
+                      end) pts).
+Proof.
+  intros s b pts Hd. unfold sample. pose proof (wf_pos (s_wu RF s) b) as Hf.
+  destruct (s_vu RF s) as [g|] eqn:Hv.
+  - rewrite (to1_wave_density s g b Hv). cbn [rbind s_wave s_value]. f_equal.
+    change (scale (wf RF (s_wu RF s) b) pts) with (map (fun x : R => x * wf RF (s_wu RF s) b) pts).
+    rewrite map_map. apply map_ext. intros x. unfold sample_at. rewrite interp_scale_density by auto.
+    destruct (interp (s_wave RF s) (s_value RF s) x); cbn [option_map f0 RF]; [reflexivity|].
+    unfold Rdiv; ring.
+  - rewrite (to1_wave_unitless s b Hv). cbn [rbind s_wave s_value]. f_equal.
+    change (scale (wf RF (s_wu RF s) b) pts) with (map (fun x : R => x * wf RF (s_wu RF s) b) pts).
+    rewrite map_map. apply map_ext. intros x. unfold sample_at. rewrite interp_scale_unitless by auto. reflexivity.
+Qed.
+
+(* linear interpolation returns the samples at the samples (strictly increasing grid, >= 2 samples) *)
+Fixpoint increasing (ws : list R) : Prop :=
+  match ws with
+  | w0 :: ((w1 :: _) as t) => w0 < w1 /\ increasing t
+  | _ => True
+  end.
+Lemma increasing_distinct : forall ws, increasing ws -> distinct_adj ws.
+Proof.
+  induction ws as [|w0 ws IH]; [exact (fun _ => I)|]. destruct ws as [|w1 ws]; [exact (fun _ => I)|].
+  intros [A B]. split; [lra|]. apply IH; exact B.
+Qed.
+Lemma increasing_above : forall ws w0, increasing (w0 :: ws) -> Forall (fun w => w0 < w) ws.
+Proof.
+  induction ws as [|w1 ws IH]; intros w0 Hi; [constructor|].
+  destruct Hi as [A B]. constructor; [exact A|].
+  specialize (IH w1 B). eapply Forall_impl; [|exact IH]. cbn. intros; lra.
+Qed.
+Lemma Rleb_true : forall x y, x <= y -> Rleb x y = true.
+Proof. intros x y A. unfold Rleb. destruct (Rle_dec x y); [reflexivity|contradiction]. Qed.
+Lemma Rleb_false : forall x y, y < x -> Rleb x y = false.
+Proof. intros x y A. unfold Rleb. destruct (Rle_dec x y); [lra|reflexivity]. Qed.
+
+Lemma interp_knots : forall ws vs w0 v0, increasing (w0 :: ws) -> length vs = length ws ->
+  map (sample_at RF Rleb (w0 :: ws) (v0 :: vs)) ws = vs.
+Proof.
+  induction ws as [|w1 ws IH]; intros vs w0 v0 Hi Hl.
+  - destruct vs; [reflexivity|discriminate].
+  - destruct vs as [|v1 vs]; [discriminate|]. pose proof Hi as [A B]. cbn [map]. f_equal.
+    + unfold sample_at.
+      change (interp (w0 :: w1 :: ws) (v0 :: v1 :: vs) w1)
+        with (if Rleb w0 w1 && Rleb w1 w1 then Some (v0 + (v1 - v0) / (w1 - w0) * (w1 - w0))
+              else interp (w1 :: ws) (v1 :: vs) w1).
+      rewrite !Rleb_true by lra. cbn [andb F RF] in *. field. lra.
+    + assert (Hl' : length vs = length ws) by (simpl in Hl; injection Hl; auto).
+      rewrite <- (IH vs w1 v1 B Hl') at 2.
+      apply map_ext_in. intros w Hin.
+      pose proof (increasing_above _ _ B) as Hab. rewrite Forall_forall in Hab. specialize (Hab w Hin).
+      unfold sample_at.
+      change (interp (w0 :: w1 :: ws) (v0 :: v1 :: vs) w)
+        with (if Rleb w0 w && Rleb w w1 then Some (v0 + (v1 - v0) / (w1 - w0) * (w - w0))
+              else interp (w1 :: ws) (v1 :: vs) w).
+      rewrite (Rleb_false w w1) by lra. rewrite andb_false_r. reflexivity.
+Qed.
+Lemma interp_first_knot : forall ws vs w0 v0 w1 v1, w0 < w1 ->
+  sample_at RF Rleb (w0 :: w1 :: ws) (v0 :: v1 :: vs) w0 = v0.
+Proof.
+  intros. unfold sample_at.
+  change (interp (w0 :: w1 :: ws) (v0 :: v1 :: vs) w0)
+    with (if Rleb w0 w0 && Rleb w0 w1 then Some (v0 + (v1 - v0) / (w1 - w0) * (w0 - w0))
+          else interp (w1 :: ws) (v1 :: vs) w0).
+  rewrite !Rleb_true by lra. cbn [andb F RF] in *. unfold Rdiv. ring.
+Qed.
+
+Lemma interp_all_knots : forall ws vs, increasing ws -> (2 <= length ws)%nat -> length vs = length ws ->
+  map (sample_at RF Rleb ws vs) ws = vs.
+Proof.
+  intros ws vs Hi Hn Hl.
+  destruct ws as [|w0 [|w1 ws]]; [simpl in Hn; lia|simpl in Hn; lia|].
+  destruct vs as [|v0 [|v1 vs]]; [discriminate|discriminate|].
+  pose proof Hi as [A B].
+  assert (Hl' : length (v1 :: vs) = length (w1 :: ws)) by (simpl in Hl |- *; injection Hl; auto).
+  pose proof (interp_knots (w1 :: ws) (v1 :: vs) w0 v0 Hi Hl') as Kn.
+  change (map (sample_at RF Rleb (w0 :: w1 :: ws) (v0 :: v1 :: vs)) (w0 :: w1 :: ws))
+    with (sample_at RF Rleb (w0 :: w1 :: ws) (v0 :: v1 :: vs) w0
+          :: map (sample_at RF Rleb (w0 :: w1 :: ws) (v0 :: v1 :: vs)) (w1 :: ws)).
+  rewrite Kn, interp_first_knot by exact A. reflexivity.
+Qed.
+
+(* a density sampled, in another wave unit, on its own grid expressed in that unit: the values are
+   the spectrum's values divided by the factor, and the trapezoid integral over the new grid is the
+   spectrum's integral *)
+Lemma sample_grid_density : forall (s : spectrum RF) (g : funit) (b : wunit),
+  s_vu RF s = Some g -> increasing (s_wave RF s) -> (2 <= length (s_wave RF s))%nat ->
+  length (s_value RF s) = length (s_wave RF s) ->
+  sample_grid RF H C Rleb s (wname b) = Ok (unscale (wf RF (s_wu RF s) b) (s_value RF s))
+  /\ trapz (scale (wf RF (s_wu RF s) b) (s_wave RF s)) (unscale (wf RF (s_wu RF s) b) (s_value RF s))
+     = trapz (s_wave RF s) (s_value RF s).
+Proof.
+  intros s g b Hv Hi Hn Hl. split; [|apply trapz_scale; apply wf_neq0].
+  pose proof (sample_unit_independent s b (s_wave RF s) (increasing_distinct _ Hi)) as E.
+  unfold sample in E. unfold sample_grid. rewrite (to1_wave_density s g b Hv) in *.
+  cbn [rbind s_wave s_value] in *. rewrite E, Hv. f_equal.
+  rewrite <- (map_map (sample_at RF Rleb (s_wave RF s) (s_value RF s)) (fun y => y / wf RF (s_wu RF s) b)).
+  rewrite interp_all_knots by auto. reflexivity.
+Qed.
+
 (* ------------------------------------------------------------------ Planck's law *)
 Variables Kb cpi : R.
 Variable expf : R -> R.
